@@ -174,7 +174,9 @@ def run(ctx: Ctx, rs: RuleSet, tier: str):
         f = p.funcs.get(q)
         factories[q] = (f, call)
   for q, (f, call) in sorted(factories.items()):
-    sid = kwarg(call, 'sequence_id')
+    # fields by keyword or by position (a dataclass: annotation order)
+    bound_fields = (ctx.bound_args(call, f) if f is not None else None) or {}
+    sid = kwarg(call, 'sequence_id') or bound_fields.get('sequence_id')
 
     def fresh_id(e, scope, depth=0):
       # next(<the counter>), or a parameter that every caller fills with it
@@ -214,7 +216,7 @@ def run(ctx: Ctx, rs: RuleSet, tier: str):
 
     ok = (f is not None and f.module.name == H and sid is not None and
           fresh_id(sid, f))
-    loc_arg = kwarg(call, 'location')
+    loc_arg = kwarg(call, 'location') or bound_fields.get('location')
     # the provider: the module global, or the attribute of the thread-local
     # state object
     tls_objs = {g.qual.rsplit('.', 1)[-1]
